@@ -10,7 +10,7 @@ package sherpa
 //@ func (s *Service) streamResponseWithTimeout
 //@   property C18 C02
 //@   safety
-//@   requires s != nil && s.configuration != nil && w != nil && resp != nil && resp.Body != nil && rlog != nil
+//@   requires s != nil && s.configuration != nil && w != nil && resp != nil && resp.Body != nil && rlog != nil && clientCtx != nil && upstreamCtx != nil
 //@   modifies ghost(w).started, ghost(w).status, gvar unflushed, gvar wBytes, gvar rBytes, gvar evBroken, gvar streamMode, ghost remaining, ghost backing, SimpleRingBuffer.data
 // C18 / C02: a relay that ends without an error and with the client still there has written exactly the bytes it read
 //@   loop 1 invariant state.clientDisconnected || wBytes - old(wBytes) == rBytes - old(rBytes)
@@ -40,7 +40,7 @@ package sherpa
 //@ func (s *Service) handleContextCancellation
 //@   property C18 C02
 //@   safety
-//@   requires s != nil && s.configuration != nil && state != nil && rlog != nil
+//@   requires s != nil && s.configuration != nil && state != nil && rlog != nil && clientCtx != nil && upstreamCtx != nil
 //@   modifies state.clientDisconnected
 //@   ensures !errorsAs(res, "*core.ResponseStartedError") && !errorsIs(res, core.ErrCircuitOpen)
 
@@ -49,7 +49,7 @@ package sherpa
 // attempt, at most one upstream round trip) and C01/C15 (what is handed to the transport).
 //@ func (s *Service) proxyToSingleEndpoint
 //@   property C01 C02 C15 C19
-//@   requires s != nil && s.configuration != nil && w != nil && rlog != nil && r != nil && r.URL != nil && endpoint != nil && endpoint.URL != nil && stats != nil
+//@   requires s != nil && s.configuration != nil && w != nil && rlog != nil && r != nil && r.URL != nil && endpoint != nil && endpoint.URL != nil && stats != nil && ctx != nil
 //@   requires !ghost(w).started && ghost(w).hdr != nil
 //@   uses rse_not_circuit
 //@   modifies *
@@ -142,7 +142,7 @@ package sherpa
 // ProxyFunc contract the retry loop relies on (requires about the captured s and rlog hold where the literal is made)
 //@ func (s *Service) ProxyRequestToEndpointsWithRetry$1
 //@   property C02 C05 C19
-//@   requires s != nil && s.configuration != nil && w != nil && rlog != nil && r != nil && r.URL != nil && endpoint != nil && endpoint.URL != nil && stats != nil
+//@   requires s != nil && s.configuration != nil && w != nil && rlog != nil && r != nil && r.URL != nil && endpoint != nil && endpoint.URL != nil && stats != nil && ctx != nil
 //@   requires !ghost(w).started && ghost(w).hdr != nil
 //@   modifies *
 //@   ensures recSuccess + recFailure == old(recSuccess) + old(recFailure) + 1
